@@ -692,15 +692,19 @@ class Evaluator:
             key = "match %s {%s}" % (render(v), ", ".join(pats))
             optkey = "is_none(%s)" % render(v) if sorted(pats) in (["None", "Some"], ["None", "_"], ["Some", "_"]) and "_" != pats[0] else None
             had_maybe = False
-            cur = [s]
+            cur = [(s, frozenset())]          # (state, base patterns already known not to match on this continuation)
             for ai, arm in enumerate(n["arms"]):
                 if not cur:
                     break
                 r = self.try_match(arm["p"], v)
                 if r == "no":
                     continue
+                base_pat = self.pat_render(arm["p"])
                 nxt = []
-                for c in cur:
+                for c, excl in cur:
+                    if base_pat in excl:
+                        nxt.append((c, excl))          # structurally the same pattern as an earlier arm that did not match
+                        continue
                     if optkey is not None:
                         c_yes = c if (r == "yes" and not had_maybe) else self.with_cond(c, optkey, pats[ai].startswith("None"))
                     else:
@@ -710,15 +714,17 @@ class Evaluator:
                         self.bind(arm["p"], v, env)
                         c_in = c_yes._replace(env=env)
                         if "g" in arm:
-                            for cg, b in self.cond(arm["g"], c_in, depth):
-                                if b:
+                            for cg, b_ in self.cond(arm["g"], c_in, depth):
+                                if b_:
                                     out.extend(self.ev(arm["b"], cg, depth))
                                 else:
-                                    nxt.append(cg._replace(env=c.env, conds=tuple(x for x in cg.conds if x[0] != key)))
+                                    # pattern matched, guard false: later arms with the same pattern can still match
+                                    nxt.append((cg._replace(env=c.env, conds=tuple(x for x in cg.conds if x[0] not in (key, optkey))), excl))
                         else:
                             out.extend(self.ev(arm["b"], c_in, depth))
                     if r == "maybe":
-                        nxt.append(c)
+                        # pattern did not match at all
+                        nxt.append((c, excl | {base_pat}))
                 if r == "maybe":
                     had_maybe = True
                 cur = nxt
